@@ -1,6 +1,7 @@
 /- Model/C13Gen.lean — the C13 model instantiated with the facts the translator extracted. -/
 import PsutilModel.Model.C13
 import PsutilModel.Model.C13Pct
+import PsutilModel.Model.C13Bind
 import PsutilModel.Generated.C13
 namespace Psutil.C13
 
@@ -53,5 +54,19 @@ def pcfg : PCfg :=
     freeKey := Gen.C13.meminfoFreeKey
     pctUsesCache := Gen.C13.pctUsesCache
     vmStoresTotal := Gen.C13.vmStoresTotal }
+
+/-- the root expressions the translator prints (`ast.unparse`) -/
+def srcOf (s : String) : PathSrc :=
+  if s == "self._procfs_path" then .bound
+  else if s == "get_procfs_path()" then .current
+  else .other
+
+/-- which procfs tree each read site of the memory methods goes to, as extracted from the current source -/
+def bcfg : BCfg :=
+  { ctorBinds := Gen.C13.procfsBinders.lookup "__init__" == some "get_procfs_path()"
+    neverRebinds := Gen.C13.procfsBinders.map (·.1) == ["__init__"]
+    statmSrc := srcOf ((Gen.C13.readRoots.lookup "memory_info:statm").getD "")
+    smapsSrc := srcOf ((Gen.C13.readRoots.lookup "_read_smaps_file:smaps").getD "")
+    rollupSrc := srcOf ((Gen.C13.readRoots.lookup "_parse_smaps_rollup:smaps_rollup").getD "") }
 
 end Psutil.C13
